@@ -6,6 +6,11 @@ ALL = ["C%02d" % i for i in range(1, 21)]
 
 def main():
     checks = json.load(open(os.path.join(V, "checks.json")))
+    d = os.path.join(V, "checks.d")
+    if os.path.isdir(d):
+        for name in sorted(os.listdir(d)):
+            if name.endswith(".json"):
+                checks.update(json.load(open(os.path.join(d, name))))
     try:
         hooks = subprocess.run(["git", "-C", "/repo", "log", "--format=%H", "--grep=^verif:"],
                                stdout=subprocess.PIPE, text=True).stdout.split()
